@@ -12,7 +12,7 @@ EXPLANATION = (
     "for the hook x hook kind pairs (F-mirror*), and levels are unfaithful across positions (F-lvl) - open findings shared with C12 / C02."
 )
 ASSUMPTIONS = [
-    'MultiTypeMap.mro (mode U): each handler occurs at most once in a per-entry table (register stores it under one type per entry)',
+    'MultiTypeMap.mro (mode U): each handler occurs at most once in a per-entry table (guarantee side discharged: register.any_number_of_entries/one_registration_files_the_handler_under_at_most_one_class_per_table, given pairwise distinct keyword names - Python syntax - and MTInv: the handler is not registered yet)',
     'MultiTypeMap.mro (mode U): signatures have vararg=False (Signature.extract rejects *args; register creates the -1 table only for vararg signatures)',
     'MultiTypeMap.mro (mode U): the key is non-empty (__missing__ answers () before calling resolve)',
     "hash seed / addresses influence behaviour only through set iteration order (frame obligation: no id()/hash() use in the resolution code)"]
